@@ -475,6 +475,21 @@ namespace
         try { auto w2 = make_world(c.text, 1, "again"); }
         catch (const std::exception &) { rejected_again = true; }
         catch (...) { ctx.violation("C12/foreign-exception/" + c.kind, detail("the second construction from the same content threw something that is not a std::exception")); return; }
+        // ... nor to the entry point: a world asked to write its declaration files validates the same way (every fourth renamed key; the files are large)
+        if (c.kind == "tree/rename-key" && idx % 4 == 0)
+          {
+            static const int c_out = Ctx::counter_id("rejected_documents_offered_with_an_output_directory");
+            ctx.count(c_out);
+            const std::string file = write_world_file(c.text, "outdir");
+            const std::string dir = G().rundir + "/decl" + std::to_string(G().shard_id);
+            (void)!system(("mkdir -p " + dir).c_str());
+            bool rejected_out = false;
+            try { World w3(file, true, dir + "/", 1); }
+            catch (const std::exception &) { rejected_out = true; }
+            catch (...) { rejected_out = true; }
+            if (!rejected_out)
+              ctx.violation("C12/rejected-content-is-accepted-when-an-output-directory-is-given/" + c.kind, detail("the construction without an output directory threw (" + msg.substr(0, 200) + "), the construction that also writes the declaration files built a world from the same content"));
+          }
         if (!rejected_again)
           ctx.violation("C12/rejected-content-is-accepted-when-offered-again/" + c.kind, detail("the first construction from this content threw (" + msg.substr(0, 200) + "), a second construction from the same content in the same process built a world"));
       }
@@ -516,7 +531,7 @@ int main(int argc, char **argv)
   spec.assumptions = {"schema oracle: Python jsonschema (Draft 2020-12 validator) against /verif/oracles/published_schema.json, used one way only: schema-invalid => must be rejected",
                       "worlds that were built are probed with 160 queries so that inconsistent tables are exercised", "a crash, sanitizer report or 120 s watchdog expiry is attributed to the candidate being loaded"
                      };
-  spec.counters = {"rejected_documents_offered_a_second_time", "documents_built", "documents_rejected_with_exception", "schema_invalid_by_python", "schema_valid_by_python", "built_worlds_probed"};
+  spec.counters = {"rejected_documents_offered_with_an_output_directory", "rejected_documents_offered_a_second_time", "documents_built", "documents_rejected_with_exception", "schema_invalid_by_python", "schema_valid_by_python", "built_worlds_probed"};
   spec.quick_deadline_s = 600; spec.thorough_deadline_s = 3000;
   return driver(argc, argv, spec, [](const std::string &tier)
   {
